@@ -86,9 +86,6 @@ func genCase(rng *rand.Rand, mode string, idx int) Case {
 		"GetCodeSize", "GetCodeHash", "HasSuicided", "IsContract", "GetBalance", "GetBalance", "CanTransfer", "GetFT", "GetRefund", "GetLogs",
 		"AddressInAccessList", "SlotInAccessList", "GetTransientState"}
 	read := func() Op {
-		if rng.Intn(50) == 0 {
-			return Op{K: "ReadAll"}
-		}
 		k := readKinds[rng.Intn(len(readKinds))]
 		o := Op{K: k, A: addr()}
 		switch k {
